@@ -166,6 +166,7 @@ func verifyFunctionAliased(l *Loaded, specs *Specs, ct *Contract, localAlias map
 	w.topFrame = nil
 	w.forgetMark = 0
 	w.witnessTerms = nil
+	w.rawFacts = nil
 	defer func() {
 		if r := recover(); r != nil {
 			if u, ok := r.(unsupportedErr); ok {
@@ -272,6 +273,10 @@ func verifyFunctionAliased(l *Loaded, specs *Specs, ct *Contract, localAlias map
 	}
 	w.replay = w.planReplay(fr, exit, res)
 	for i, en := range ct.Ensures {
+		if en.Assumed {
+			w.assumption("clause '" + en.Label + "' of " + ct.Name + " is assumed, not proved (" + en.Src + ")")
+			continue
+		}
 		lbl := en.Label
 		if lbl == "" {
 			lbl = fmt.Sprintf("post%d", i+1)
@@ -559,6 +564,9 @@ func solveAll(w *World, obls []*Obligation, timeoutS, seed int) {
 			if o.Expect == "unsat" && len(w.splits) > 0 && len(w.splits) <= 4 && t0 > 4 {
 				t0 = 4 // a case split is available: do not wait long for the monolithic query
 			}
+			if o.Expect == "unsat" && (len(o.Parts) > 1 || len(o.Splits) > 0) && t0 > 8 {
+				t0 = 8 // the goal can be proved piecewise: do not wait long for the whole
+			}
 			r := solve(o.Name, q, o.Values, t0, seed, "")
 			if o.Expect == "unsat" && (r.Status == "unknown" || r.Status == "timeout") && len(w.splits) > 0 && len(w.splits) <= 4 {
 				// exhaustive case split on the contract's split conditions
@@ -584,6 +592,50 @@ func solveAll(w *World, obls []*Obligation, timeoutS, seed int) {
 				}
 				if all {
 					r = SolverResult{Status: "unsat", Solver: r.Solver + "+split", Ms: r.Ms + ms, All: r.All}
+				}
+			}
+			if o.Expect == "unsat" && (r.Status == "unknown" || r.Status == "timeout") && (len(o.Parts) > 1 || len(o.Splits) > 0) {
+				// the goal conjunct by conjunct, each under the case distinctions its quantifier guards suggest
+				// (exhaustive: every conjunct, every truth assignment of the distinctions)
+				parts := o.Parts
+				if len(parts) == 0 {
+					parts = []Term{o.Goal}
+				}
+				base := q[:strings.LastIndex(q, "(assert (not ")]
+				all := true
+				var ms int64
+				for pi, part := range parts {
+					if !all {
+						break
+					}
+					pq := base + "(assert (not " + part.S + "))\n"
+					rr := solve(fmt.Sprintf("%s.part%d", o.Name, pi), pq, o.Values, t/2+1, seed, "")
+					ms += rr.Ms
+					if rr.Status == "unsat" {
+						continue
+					}
+					if len(o.Splits) == 0 || len(o.Splits) > 3 {
+						all = false
+						break
+					}
+					for mask := 0; mask < 1<<len(o.Splits) && all; mask++ {
+						extra := ""
+						for i, sp := range o.Splits {
+							if mask&(1<<i) != 0 {
+								extra += "(assert " + sp.S + ")\n"
+							} else {
+								extra += "(assert (not " + sp.S + "))\n"
+							}
+						}
+						r2 := solve(fmt.Sprintf("%s.part%d.case%d", o.Name, pi, mask), pq+extra, o.Values, t/2+1, seed, "")
+						ms += r2.Ms
+						if r2.Status != "unsat" {
+							all = false
+						}
+					}
+				}
+				if all {
+					r = SolverResult{Status: "unsat", Solver: r.Solver + "+parts", Ms: r.Ms + ms, All: r.All}
 				}
 			}
 			if o.Expect == "unsat" && r.Status != "unsat" && r.Status != "sat" {
